@@ -316,4 +316,14 @@ def c10_insitu_cases(tier, rng):
             cases[-1]["history"] = ["used", "used_moved"][(len(cases) // 3) % 2]  # Device object solved before with other options
         if kind in ("screening", "ramp", "pulse_back_to_start") and (k // len(kinds)) % 2 == 0:
             cases[-1]["solve_twice"] = True  # one TDGLSolver object: the second run starts with the operators the first one left
+    for k in range(2 if tier == "quick" else 8):
+        # two solver objects on one Device alive at the same time: A is constructed, then B (another field, another pinning) is
+        # constructed on the same device, then A is run: A's operators carry A's link variables (static field: never refreshed)
+        nt = int([2, 0][k % 2])
+        dev = zoo.gen_device(rng, n_terminals=nt, n_holes=0, probes=0, size="small", smooth=0)
+        o = base_options(rng, adaptive=bool(k % 2), steps=60)
+        if nt:
+            o["terminal_psi"] = [0.0, "none"][(k // 2) % 2]
+        drive = {"A": field_spec(rng, dev, o, ["uniform", "ramp"][(k // 2) % 2], b=0.3), "currents": current_spec(rng, dev, o, "const" if nt else "none")}
+        cases.append({"layer": "L2", "device": dev, "options": o, "drive": drive, "monitors": ["fresh"], "kind": "rival_solver", "rival_solver": ["same_pinning", "toggle_pinning"][(k // 2) % 2], "cost": 8})
     return cases
